@@ -41,6 +41,21 @@ theorem Good.dropLast {t : Tbl} {l : List Nat} (g : Good t l) (h2 : 2 ≤ l.leng
 
 /-! ### idxOf -/
 
+/-- a hash resolves exactly when it is on the list (the index the model keeps is the stored chain) -/
+theorem idxOf_isSome_iff (l : List Nat) (x : Nat) : (idxOf l x).isSome = true ↔ x ∈ l := by
+  induction l with
+  | nil => simp [idxOf]
+  | cons y ys ih =>
+    simp only [idxOf, List.mem_cons]
+    by_cases hy : y = x
+    · simp [hy]
+    · simp only [hy, ↓reduceIte, Option.isSome_map, ih]
+      constructor
+      · intro h; exact Or.inr h
+      · intro h; rcases h with h | h
+        · exact absurd h.symm hy
+        · exact h
+
 theorem idxOf_some {l : List Nat} {x i : Nat} (h : idxOf l x = some i) : i < l.length ∧ l[i]? = some x := by
   induction l generalizing i with
   | nil => simp [idxOf] at h
